@@ -51,6 +51,8 @@ type Compiled struct {
 	Ch   chan eval.Event
 	// NoDrain: the caller consumes the events itself (multi-task engines)
 	NoDrain bool
+	// KeyOf: the configuration's name -> key assignment, handed to every Env
+	KeyOf func(name string) int16
 }
 
 // CompileWorld compiles prog under the world's configuration with the given
@@ -64,7 +66,7 @@ func CompileSpec(cfg *CfgSpec, prog *Node, mask int, viaDirective bool, compileE
 	if viaDirective {
 		src = Directive(mask, cfg.DirStyle) + src
 	}
-	c = &Compiled{Conf: cc, Host: host, Src: src, Mask: mask}
+	c = &Compiled{Conf: cc, Host: host, Src: src, Mask: mask, KeyOf: cfg.KeyOf}
 	func() {
 		defer func() {
 			if r := recover(); r != nil {
@@ -124,6 +126,17 @@ func (c *Compiled) RunCtx(ctx *eval.Ctx, env *Env, kind string) (o Outcome) {
 	if env.Plan != nil && env.Plan.CtxDone {
 		ctx.Ctx = cancelledCtx
 	}
+	if env.KeyOf == nil {
+		env.KeyOf = c.KeyOf
+	}
+	defer func() {
+		// the fetcher was addressed with a key/name pair that does not belong
+		// together: surfaced like a panic so that every property reports it
+		if env.KeyMismatch != "" && o.Panic == nil {
+			o.Panic = "the engine addressed the fetcher inconsistently: " + env.KeyMismatch
+			o.Stack = ""
+		}
+	}()
 	defer func() {
 		if r := recover(); r != nil {
 			if _, ok := r.(AbortPanic); ok {
